@@ -166,6 +166,10 @@ func allowedFeeOnlyDiff(d []DiffEntry, sender common.Address) []DiffEntry {
 		case e.Store == "t:transient_evm":
 		case e.Store == "acc" && bytes.Equal(e.Key, accKey):
 		case e.Store == "bank" && (bytes.Equal(e.Key, ok1) || bytes.Equal(e.Key, ok2) || bytes.Equal(e.Key, ix1) || bytes.Equal(e.Key, ix2)):
+		case e.Store == "acc" && e.Old == nil && bytes.Equal(e.Key, append(append([]byte(nil), authtypes.AddressStoreKeyPrefix...), EvmModuleAddr.Bytes()...)):
+			// fee processing creates the evm module account record the first time a gas refund passes through it
+		case e.Store == "acc" && e.Old == nil && bytes.Equal(e.New, EvmModuleAddr.Bytes()):
+			// ... and its account-number index entry
 		case e.Store == "acc" && bytes.Equal(e.Key, authtypes.GlobalAccountNumberKey):
 			// the EVM creates (and, being empty, deletes again) an account record for a touched address: the counter moves
 		default:
